@@ -32,6 +32,11 @@ var concSources = []string{
 	"set p to pattern 'a' or 'b' find all p p find all at least 1 p",
 	"set f to transform return match + matchNumber end replace all @/(b)(c)?/ with f '-'",
 	"find all at least 1 (in 'a', 'b') at most 2 'c' fewest",
+	// predicates (their own variables, loops) and transforms with scratch names: evaluated many times per run
+	"set p to pattern at least 1 (in 'a', 'b', 'c') begin set n to matchLength if n > 2 then return false end set t to match + 'x' return t == match + 'x' end find all p",
+	"set q to pattern any begin set seen to seen + match return seen == match end find all q q replace all q with 'z'",
+	"set g to transform set i to 0 set s to '' loop set i to i + 1 if i > matchLength then break end set s to s + i end return s + match end replace all at least 1 'b' or 'c' with g",
+	"find all at least 1 (any = c) named lp 'b'",
 }
 var concTexts = []string{"ab", "abcab abx", "bcabcb a", ""}
 
